@@ -33,7 +33,7 @@ Ups(n) == [i \in 1..n |-> ".."]
 
 -----------------------------------------------------------------------------
 \* C11: algebra
-Names == {"a", "b"}
+Names == {"a", "..s"}       \* "..s": a name that begins with two dots is still a name
 Stacks(n) == SeqsUpTo(Names, n)
 
 \* a relative (local) address in canonical form: ups leading "..", then names
@@ -113,7 +113,7 @@ JoinCase(reg, rs, real, ls) ==
    expect |-> [ok |-> TRUE, str |-> RemoteStr(real, ls \o rs)], l1 |-> [ok |-> TRUE, str |-> RemoteStr(real, ls \o rs)], kind |-> "registry"]
 
 \* spellings of relative paths that are not canonical must be rejected by the parser
-RawRel == SeqsUpTo({"a", ".", ".."}, MaxRel + 1) \ { <<>> }
+RawRel == SeqsUpTo({"a", ".", "..", "..s"}, MaxRel + 1) \ { <<>> }
 IsCanonSpelling(toks, trail) ==
   \E r \in Rels : (LocalStr(r) = JoinS(toks, "/") \o (IF trail THEN "/" ELSE ""))
 ParseLocalCase(toks, trail) ==
@@ -147,7 +147,7 @@ Queries == { F("", "none"), F("?ref=main", "ref"), F("?ref=a&ref=b", "ref2"), F(
              F("?archive=tgz&archive=tgz", "arch2"), F("?archive=tgz&checksum=1", "checksum") }
 Frags   == { F("", "none"), F("#frag", "frag") }
 SubPs   == { F(<<>>, "none"), F(<<"sub">>, "ok"), F(<<"sub","dir">>, "ok"), F(<<".">>, "bad"), F(<<"..">>, "bad"),
-             F(<<"sub","","x">>, "bad"), F(<<"sub",".","x">>, "bad"), F(<<"a b">>, "raw"), F(<<"a%20b">>, "esc") }
+             F(<<"sub","","x">>, "bad"), F(<<"","etc">>, "bad"), F(<<"sub",".","x">>, "bad"), F(<<"a b">>, "raw"), F(<<"a%20b">>, "esc") }
 
 Spell(ty, sc, us, ho, pa, qu, fr, su) ==
   ty.v \o sc.v \o "://" \o us.v \o ho.v \o pa.v \o (IF su.v = <<>> THEN "" ELSE "//" \o JoinS(su.v, "/")) \o qu.v \o fr.v
